@@ -10,5 +10,29 @@ TEXTS = {
     },
 }
 
+TEXTS.update({
+    "C11": {
+        "engine": "lean-model+extract+harness",
+        "design_ref": "4/C11",
+        "technique": "hand-written Lean 4 model of the adaptive radix tree (Model.Art) validated against part.Tree/Txn/Iterator by an exact differential check (values, iteration order, structure dumps) over generated transaction histories with retained versions; Go-map oracle; Lean theorems under construction",
+        "text": "Every run executes generated histories (branching, abandoned transactions, clones, live iterators, all node sizes) on the real part package and on the Lean model and compares every observation including the full tree structure; a reference Go map decides the ordered-map and persistence clauses directly on the implementation. Theorems about Model.Art are listed in the evidence once proved; until the refinement proof is complete the claim is translation validation, not proof.",
+        "note": "Model.Art is hand-written; the differential check is testing (generator quality bounds it). Aliasing is not representable in Model.Art (see C01 / Model.Cow).",
+    },
+    "C12": {
+        "engine": "lean-model+extract+harness",
+        "design_ref": "4/C12",
+        "technique": "Model.Art tracks watch-channel identities, the per-transaction close set and the clone/promote/demote/merge decisions; closed-channel sets compared exactly with part after every operation; must-close / never-early oracle on the implementation",
+        "text": "Watch behaviour is modelled exactly (channel handed out by each Get/Prefix/InsertWatch/RootWatch, set closed by Notify) and compared with the implementation after every step in both watch modes; the oracle states the property directly: channels of changed keys/prefixes and the root watch of a dirty transaction must be closed after Notify, nothing closes outside Notify, nothing handed out closed, no-change transactions leave the root watch open.",
+        "note": "Translation validation until the path-closure theorem over Model.Art is finished. Precondition N4 (one notified transaction per lineage) and note N1 restrict the generator.",
+    },
+    "C17": {
+        "engine": "lean-model+extract+harness",
+        "design_ref": "4/C17",
+        "technique": "Lean model of part.Map/part.Set representations over Model.Art, differential check incl. representation dumps over branching histories; Go-map oracle incl. JSON/YAML round trips",
+        "text": "Operations are applied to arbitrary earlier versions; every result (contents, Len, representation empty/single/tree with structure) is compared with the Lean model and with a reference Go map; all earlier versions are re-read. Two genuine defects found this way were repaired (fix: commits 6975fac, 07c1ed8); their witnesses run first on every check.",
+        "note": "Translation validation; the text layer of JSON/YAML is exercised in Go only.",
+    },
+})
+
 # every property not in TEXTS/PROPS must be listed here with a reason
 NOT_APPLICABLE = []
